@@ -99,6 +99,18 @@ CHECKS = {
         "Trusted: float64 re-measurement of powers. Items with negligible power and sparse signals (PAPR) are exempt as the property states; one listed finding (OFDM factory with a tight peak limit).",
         "3 C08",
     ),
+    "C10": (
+        "runtime monitoring: reference-model monitors at the decoder boundary - brute-force soft-ML (Wagner), brute-force bitwise posteriors and max-log marginals by codebook enumeration on cycle-free graphs (BP / min-sum), one-iteration closed form, scale invariance, clean-decode oracle",
+        "Held for BP (exact/Taylor), min-sum (plain/scaled/offset/normalized), Wagner (k=1..10, thousands of real vectors each) and soft Reed-Muller on random tree / sparse LDPC codes, the bundled example and Hamming(7,4). Exploration; exactness clauses only inside the algorithms' documented ranges.",
+        "Trusted: numpy float64 enumeration over the reference null space (vk.oracles.gf2).",
+        "3 C10",
+    ),
+    "C11": (
+        "runtime monitoring: reference-model monitors - own reader of the 5G reliability sequence, explicit Kronecker power and its involution to recover u from the codeword, float64 textbook successive cancellation cross-checked by brute-force marginalisation",
+        "N=2..32 all k (sampled k up to 128 quick / 1024 thorough) x frozen value x interleaving x regime x user masks; all 2^k messages for small k; thousands of random LLR vectors for the SC = textbook clause with tie/saturation skips counted. Exploration with exhaustive message sub-spaces.",
+        "Trusted: numpy integer linear algebra; the float64 SC reference after its own self-test unit.",
+        "3 C11",
+    ),
 }
 
 ALL = [f"C{i:02d}" for i in range(1, 21)]
